@@ -76,6 +76,13 @@ def measure(g, kw):
                       f"{deepest:.6g} inside the usable width, above the requested depth {g.depth:.6g}"))
         else:
             P.append(('depth', f"deepest point inside the usable width is {deepest:.9g}, depth is {g.depth:.9g}"))
+    # a requested flank extent is the extent of the straight flank between the two arcs of the returned contour
+    if all(hasattr(g, a) for a in ('z3', 'y3', 'z4', 'y4')):
+        fw, fh = float(g.z3 - g.z4), float(g.y4 - g.y3)
+        have = {'flank_width': fw, 'flank_height': fh, 'flank_length': math.hypot(fw, fh)}
+        for k in have:
+            if isinstance(kw.get(k), (int, float)) and abs(have[k] - kw[k]) > 1e-6 * size:
+                P.append(('requested', f"requested {k} = {kw[k]!r}, the straight flank of the contour has {k} = {have[k]!r}"))
     # requested values are reproduced
     for k, v in kw.items():
         if not isinstance(v, (int, float)) or not hasattr(g, k):
@@ -341,6 +348,26 @@ def byname(chk, rng, n):
                 return chk.fail('by-name', f"create_groove_by_type_name({s!r}, ...) fails: {type(e).__name__}: {e}", {'name': s, 'class': c})
             if type(g).__name__ != c:
                 return chk.fail('by-name', f"create_groove_by_type_name({s!r}) builds a {type(g).__name__}, not a {c}", {'name': s, 'class': c})
+        # created through the factory = created directly: the same parameter set (also one with a surplus, unknown or missing value) is accepted with
+        # the same contour or rejected, whichever way the class is reached
+        base = kw_of[c]
+        variants = [dict(base)] + [dict(base, **{k: v}) for k, v in (('depth', 3.0), ('usable_width', 40.0), ('r2', 7.0), ('ground_width', 10.0),
+                                                                    ('flank_angle', 60), ('tip_depth', 9.0), ('no_such_parameter', 1.0)) if k not in base]
+        variants += [{a: b for a, b in base.items() if a != k} for k in base]
+        for v in variants:
+            def outcome(make):
+                try:
+                    g_ = make()
+                    return 'built', np.asarray(g_.contour_points, dtype=float)
+                except Exception as e:      # noqa
+                    return 'rejected', type(e).__name__
+            direct = outcome(lambda: getattr(G, c)(**v))
+            via = outcome(lambda: create_groove_by_type_name(render(c, rng), **v))
+            chk.cov['evaluations'] += 2
+            same = direct[0] == via[0] and (direct[0] == 'rejected' or (direct[1].shape == via[1].shape and np.array_equal(direct[1], via[1])))
+            if not same:
+                return chk.fail('by-name-differs', f"{c}(**{v}) is {direct[0]}{' (' + direct[1] + ')' if direct[0] == 'rejected' else ''}, the by-name factory with the "
+                                f"same values gives: {via[0]}{' (' + via[1] + ')' if via[0] == 'rejected' else ''}", {'class': c, 'kwargs': v})
 
 
 def run(chk):
